@@ -70,11 +70,12 @@ class Frame:
 
 
 class LoopSpec:
-    def __init__(self, invariants, modifies=(), decreases=None, index=None):
+    def __init__(self, invariants, modifies=(), decreases=None, index=None, var_types=None):
         self.invariants = list(invariants)
         self.modifies = list(modifies)    # extra heap locations: "obj.field" strings (python exprs)
         self.decreases = decreases
         self.index = index                # name of the ghost index variable for `for` loops
+        self.var_types = dict(var_types or {})   # types of locals that are None / [] before the loop
 
 
 class Obl:
@@ -92,6 +93,108 @@ def mangle(name, cls):
     return name
 
 
+class SafeSolver:
+    """In-process z3 used only for pruning and context-aware simplification.
+
+    It never sees sequence terms: every formula is first *abstracted* to linear integer
+    arithmetic + propositional structure (an Int/Bool-valued subterm with a non-arithmetic
+    operator or a sequence-sorted argument becomes an opaque constant, keyed by the term).  The
+    abstraction only forgets facts, so "infeasible" answers stay sound for the original formula,
+    while the solver stays inside its most robust fragment (z3 5.1 returned an unsound `unsat` and
+    internal errors on sequence + quantifier queries during construction, see DESIGN).
+    Any internal error or timeout degrades to "don't know" (never to a verdict)."""
+
+    _ARITH = {z3.Z3_OP_ADD, z3.Z3_OP_SUB, z3.Z3_OP_MUL, z3.Z3_OP_UMINUS, z3.Z3_OP_LE, z3.Z3_OP_LT,
+              z3.Z3_OP_GE, z3.Z3_OP_GT, z3.Z3_OP_AND, z3.Z3_OP_OR, z3.Z3_OP_NOT, z3.Z3_OP_IMPLIES,
+              z3.Z3_OP_ITE, z3.Z3_OP_EQ, z3.Z3_OP_DISTINCT, z3.Z3_OP_IFF, z3.Z3_OP_XOR, z3.Z3_OP_TRUE,
+              z3.Z3_OP_FALSE, z3.Z3_OP_ANUM, z3.Z3_OP_IDIV, z3.Z3_OP_MOD}
+
+    def __init__(self, timeout_ms=500):
+        self.s = z3.Solver()
+        self.s.set("timeout", timeout_ms)
+        self.broken = False
+        self.memo = {}
+        self.keep = []
+
+    def abstract(self, t):
+        k = t.get_id()
+        r = self.memo.get(k)
+        if r is not None:
+            return r
+        r = self._abs(t)
+        self.memo[k] = r
+        self.keep.append(t)
+        return r
+
+    def _opaque(self, t):
+        srt = t.sort()
+        if srt == B:
+            return z3.Bool("abs!b%d" % t.get_id())
+        c = z3.Int("abs!i%d" % t.get_id())
+        if z3.is_app(t) and t.decl().kind() == z3.Z3_OP_SEQ_LENGTH:
+            self.s.add(c >= 0)
+        return c
+
+    def _abs(self, t):
+        if not z3.is_app(t):
+            return self._opaque(t) if t.sort() in (B, I) else None
+        srt = t.sort()
+        if srt != B and srt != I:
+            return None
+        kind = t.decl().kind()
+        if kind == z3.Z3_OP_UNINTERPRETED and t.num_args() == 0:
+            return t
+        if kind not in self._ARITH:
+            return self._opaque(t)
+        if kind == z3.Z3_OP_MUL:
+            # keep linear products only
+            args = [t.arg(i) for i in range(t.num_args())]
+            if sum(0 if z3.is_int_value(a) else 1 for a in args) > 1:
+                return self._opaque(t)
+        kids = []
+        for i in range(t.num_args()):
+            a = self.abstract(t.arg(i))
+            if a is None:
+                return self._opaque(t)
+            kids.append(a)
+        if not kids:
+            return t
+        try:
+            return t.decl()(*kids)
+        except z3.Z3Exception:
+            return self._opaque(t)
+
+    def _do(self, fn, *a):
+        if self.broken:
+            return None
+        try:
+            return fn(*a)
+        except z3.Z3Exception:
+            self.broken = True
+            return None
+
+    def add(self, f):
+        g = self._do(self.abstract, f)
+        if g is not None:
+            self._do(self.s.add, g)
+
+    def push(self):
+        self._do(self.s.push)
+
+    def pop(self):
+        self._do(self.s.pop)
+
+    def check(self, *a):
+        gs = []
+        for f in a:
+            g = self._do(self.abstract, f)
+            if g is None:
+                return z3.unknown
+            gs.append(g)
+        r = self._do(self.s.check, *gs)
+        return z3.unknown if r is None else r
+
+
 class Ex:
     MAX_UNROLL = 12
 
@@ -101,8 +204,7 @@ class Ex:
         self.dpos = 0
         self.forks = []                 # alternative prefixes discovered on this run
         self.pc = []
-        self.solver = z3.Solver()
-        self.solver.set("timeout", 800)
+        self.solver = SafeSolver(500)
         self.obls = []
         self.frames = []
         self.old = None                 # snapshot for old()
@@ -118,6 +220,10 @@ class Ex:
         self.axioms = []                # definitional facts about uninterpreted symbols: valid on
         self._axiom_keys = set()        # every path, never retracted (kept across guarded scopes)
         self._scopes = []
+        self._rec_depth = 0
+        self._solver_broken = False
+        self._keep = []                 # keeps z3 asts alive whose ids are used as keys
+        self.no_ctx = False
 
     # ------------------------------------------------------------------ facts / branching
     def assume(self, fact):
@@ -138,6 +244,10 @@ class Ex:
             return
         self._axiom_keys.add(k)
         self.axioms.append(fact)
+        if z3.is_quantifier(fact):
+            # quantified axioms only go into the final VCs: the in-process solver is used for
+            # pruning / simplification, where fewer assumptions are always sound
+            return
         self.solver.add(fact)
         for sc in self._scopes:
             sc.append(fact)
@@ -156,9 +266,11 @@ class Ex:
         for f in lost:           # axioms added inside the scope stay valid outside
             self.solver.add(f)
 
+    def sat_now(self):
+        return self.solver.check() == z3.sat
+
     def feasible(self, cond):
-        r = self.solver.check(cond)
-        return r != z3.unsat
+        return self.solver.check(cond) != z3.unsat
 
     def branch(self, cond):
         """Decide a symbolic condition; returns a Python bool and records it in the pc."""
@@ -259,6 +371,7 @@ class Ex:
                 return z3.BoolVal(False)
             if a.pyval is not None and b.pyval is not None:
                 return z3.BoolVal(a.pyval == b.pyval)
+            a, b = _coerce_empty(a, b)
             if goal and a.view is not None and b.view is not None and a.view[0].eq(b.view[0]):
                 (_, l1, h1), (_, l2, h2) = a.view, b.view
                 return z3.Or(z3.And(l1 == l2, h1 == h2), z3.And(l1 == h1, l2 == h2))
@@ -716,15 +829,23 @@ class Ex:
             v = fr.lookup(nm)
             if v is None:
                 continue
+            ty = spec.var_types.get(nm)
             if isinstance(v, VBox):
                 if id(v) not in done:
                     done.add(id(v))
-                    self.havoc_box(v, nm)
+                    if ty is not None and v.kind == "list":
+                        v.val = VSeq("list", ty[1], z3.Const(fresh_name(nm), sort_of(ty)))
+                    else:
+                        self.havoc_box(v, nm)
                 if nm not in _assigned_names(st.body):
                     continue
             if nm in _assigned_names(st.body) or (isinstance(st, ast.For) and nm in _target_names(st.target)):
                 own = fr.owner(nm)
-                own.vars[nm] = self.havoc_value(v, nm)
+                if ty is not None and not isinstance(v, VBox):
+                    nv = self.world.speclib.fresh_typed(self, ty, nm)
+                else:
+                    nv = self.havoc_value(v, nm)
+                own.vars[nm] = nv
         self.spec_mode += 1
         try:
             for loc in spec.modifies:
@@ -732,8 +853,17 @@ class Ex:
                 if isinstance(node, ast.Attribute):
                     obj = self.eval(node.value)
                     name = mangle(node.attr, self.frame().func.cls)
+                    if isinstance(obj, VOpt):
+                        obj = obj.val
+                    if obj is NONE:
+                        continue
+                    c = self.world.contract_for_func(self.frame().func)
+                    ty = getattr(c, "field_types", {}).get(name) if c is not None else None
                     if isinstance(obj, VObj):
-                        obj.fields[name] = self.havoc_value(obj.fields[name], name)
+                        if ty is not None:
+                            obj.fields[name] = self.world.speclib.fresh_typed(self, ty, name)
+                        else:
+                            obj.fields[name] = self.havoc_value(obj.fields[name], name)
                 elif isinstance(node, ast.Name):
                     v = fr.lookup(node.id)
                     if isinstance(v, VBox):
@@ -974,7 +1104,12 @@ class Ex:
             a = a.val
             if isinstance(op, ast.Add) and isinstance(b, (VBox, VSeq)):
                 bb = b.val if isinstance(b, VBox) else b
+                a, bb = _coerce_empty(a, bb)
                 return VBox("list", VSeq("list", a.ety, z3.Concat(a.t, bb.t)))
+        if isinstance(a, VSeq) and a.kind == "list" and isinstance(op, ast.Add) and isinstance(b, (VBox, VSeq)):
+            bb = b.val if isinstance(b, VBox) else b
+            a, bb = _coerce_empty(a, bb)
+            return VBox("list", VSeq("list", a.ety, z3.Concat(a.t, bb.t)))
         if isinstance(a, (VInt, VBool)) and isinstance(b, (VInt, VBool)):
             x, y = unwrap("int", a), unwrap("int", b)
             if isinstance(op, ast.Add):
@@ -1332,6 +1467,8 @@ class Ex:
             return True
         if z3.is_false(c):
             return False
+        if self.no_ctx:
+            return None
         if not self.feasible(z3.Not(c)):
             return True
         if not self.feasible(c):
@@ -1364,6 +1501,7 @@ class Ex:
                 val = self.ite(c, av, bv)
             return VOpt(z3.If(c, an, bn), val)
         if isinstance(a, VSeq) and isinstance(b, VSeq) and a.kind == b.kind:
+            a, b = _coerce_empty(a, b)
             if a.view is not None and b.view is not None and a.view[0].eq(b.view[0]):
                 return VSeq(a.kind, a.ety, None, view=(a.view[0], z3.If(c, a.view[1], b.view[1]),
                                                        z3.If(c, a.view[2], b.view[2])))
@@ -1372,10 +1510,11 @@ class Ex:
             return VTuple([self.ite(c, x, y) for x, y in zip(a.items, b.items)])
         raise Unsupported("ite merge of %r and %r" % (a, b))
 
-    def pure_call(self, f, args, kwargs):
-        rec = self.world.speclib.rec_spec(self, f, args, kwargs)
-        if rec is not None:
-            return rec
+    def pure_call(self, f, args, kwargs, norec=False):
+        if not norec:
+            rec = self.world.speclib.rec_spec(self, f, args, kwargs)
+            if rec is not None:
+                return rec
         vals = self.bind_args(f, args, kwargs)
         fr = Frame(f, f.closure)
         fr.vars.update(vals)
@@ -1444,6 +1583,15 @@ class Ex:
             f = VFunc("user", "%s.__init__" % init[2].name, node=init[1], cls=init[2].name, module=mod)
             self.call(f.bind(obj), args, kwargs, node)
         return obj
+
+
+def _coerce_empty(a, b):
+    """the polymorphic empty list [] takes the element type of the list it meets"""
+    if a.kind == "list" and a.ety is None and a.pyval == [] and b.ety is not None:
+        a = VSeq("list", b.ety, z3.Empty(sort_of(("list", b.ety))))
+    if b.kind == "list" and b.ety is None and b.pyval == [] and a.ety is not None:
+        b = VSeq("list", a.ety, z3.Empty(sort_of(("list", a.ety))))
+    return a, b
 
 
 _TYPE_NAMES = ("bytes", "str", "int", "tuple", "list", "bool", "dict", "set", "object", "frozenset")
